@@ -16,6 +16,8 @@ TIMEOUT_MS = 400                # client timeout used only in sessions with a si
 WITNESS = "witness 2 R:64:64:0 N T%d" % TIMEOUT_MS   # the session of later_frames_negotiated_refuted
 # C06_example_keepalive_inside: 1.0.1-only reader, keep-alive while the query is unanswered, ack first
 DOWNGRADE_KA = "downgrade-ka 2 R:32:32:0 N T%d K1 LA" % TIMEOUT_MS
+GREETING_11 = "greeting-1.1 2 R:64:64:0 R:0:0:0 V221"      # a reader that already greets with a 1.1 header
+EARLY_NOWAIT = "early-nowait 2 R:32:64:0 R:0:0:0 EN1"      # SendNoWait issued while the query is unanswered
 
 
 NEVER_REPLY = set()     # message types this tree never delivers as a reply (probed in run())
@@ -106,6 +108,36 @@ def sessions(tier):
                 add(2, a, b, o)
     for a in (r1 if thorough else ["R:64:64:0", "E:%d" % VER_UNSUPPORTED, "N"]):
         add(1, a, "R:0:0:0", ["LA"])
+    # grid 5 — header version bits of what the READER sends (greeting, during negotiation, afterwards):
+    # they must have no influence on what the client sends
+    h1 = ["R:64:64:0", "R:32:64:0", "R:32:32:0", "R:64:32:0", "E:%d" % VER_UNSUPPORTED, "E:100"]
+    if thorough:
+        vs = [(g, n_, l) for g in range(8) for n_ in range(8) for l in range(8)]
+    else:
+        vs = sorted(set([(g, 2, 1) for g in range(8)] + [(1, n_, 1) for n_ in range(8)] + [(1, 2, l) for l in range(8)]
+                        + [(x, x, x) for x in range(8)] + [(2, 1, 2), (2, 2, 2), (3, 3, 1), (2, 2, 1), (1, 1, 2)]))
+    for cmax in (1, 2):
+        for a in h1:
+            for (g, n_, l) in vs:
+                add(cmax, a, "R:0:0:0", ["V%d%d%d" % (g, n_, l)])
+    # grid 6 — an early caller: SendNoWait / SendMessage issued before Connect, while the query is
+    # unanswered, while the switch is unanswered
+    early = ["EN0", "ES0", "EN1", "ES1", "EN2", "ES2"]
+    if thorough:
+        e1, e2 = r1, r2
+    else:
+        e1 = resp_ok + ["E:%d" % VER_UNSUPPORTED, "E:100", "W:57"]
+        e2 = ["R:0:0:0", "R:0:0:%d" % VER_UNSUPPORTED]
+    for a in e1:
+        for b in e2:
+            for e in early:
+                add(2, a, b, [e])
+    for a in ("R:32:32:0", "R:32:64:0", "R:64:32:0", "R:64:64:0"):
+        for o in (["K1", "EN1"], ["K1", "K2", "ES2"], ["LA", "EN1"], ["LA", "ES0"], ["K1", "LA", "ES1"], ["V222", "EN0"], ["V211", "ES1"]):
+            add(2, a, "R:0:0:0", o)
+    for e in ("EN0", "ES0"):
+        add(1, "R:64:64:0", "R:0:0:0", [e])
+        add(1, "R:64:64:0", "R:0:0:0", ["LA", e])
     # grid 4 — version bytes whose low five bits are not zero (the decoder must ignore them)
     if thorough:
         extra = [(cb, mb) for cb in range(256) for mb in range(256) if (cb & 31) or (mb & 31)]
@@ -113,15 +145,28 @@ def sessions(tier):
         extra = [((c << 5) | 31, (m << 5) | (1 + (c * 8 + m) % 31)) for c in range(8) for m in range(8)]
     for cb, mb in extra:
         add(2, "R:%d:%d:0" % (cb, mb), "R:0:0:0")
-    return [WITNESS] + [DOWNGRADE_KA] + main, over, sweep_desc
+    return [WITNESS, DOWNGRADE_KA, GREETING_11, EARLY_NOWAIT] + main, over, sweep_desc
+
+
+EARLY_TYPE = {"EN": 64, "ES": 3}   # SendNoWait(ENABLE_EVENTS_AND_REPORTS) / SendMessage(SET_READER_CONFIG)
+
+
+def early_of(opts):
+    for o in opts:
+        if len(o) == 3 and o[:2] in EARLY_TYPE:
+            return o
+    return None
 
 
 def model_request(line, prestamp, override):
     f = line.split()
     g = lambda r: "G" if r.startswith("G") else eff(r)
     opts = f[4:]
-    return "%d %d %s %d %d %s %s %s" % (prestamp, override, f[1], "K1" in opts, "K2" in opts, g(f[2]), g(f[3]),
-                                        LATER_A if "LA" in opts else LATER_Q)
+    later = LATER_A if "LA" in opts else LATER_Q
+    e = early_of(opts)
+    if e:   # the early caller's message is the first thing written once Connect has proceeded
+        later = "Q%d: %s" % (EARLY_TYPE[e[:2]], later)
+    return "%d %d %s %d %d %s %s %s" % (prestamp, override, f[1], "K1" in opts, "K2" in opts, g(f[2]), g(f[3]), later)
 
 
 def frames(s):
@@ -199,6 +244,13 @@ def judge(cmax, r1, r2, ob, opts=()):
         bad = [f for f in negf if f[0] != 2]
         if bad:
             v.append(("negotiation-header-not-1.1", "negotiation frame(s) %s do not carry version 1.1" % bad))
+        app = [f for f in before if f[1] not in (46, 47, 72)]
+        if app and ob["outcome"] == "proceeds":
+            # "first asks the reader ... every message sent afterwards carries the negotiated version":
+            # nothing but the two negotiation messages (and keep-alive acks) may be written before
+            # negotiation has ended
+            v.append(("application-frame-before-negotiation-ends",
+                      "application frame(s) %s were written before negotiation had ended (frames before the reader's last negotiation answer: %s)" % (app, before)))
         nset = len([f for f in negf if f[1] == 47])
         if d["sets"] is not None and nset != d["sets"]:
             if d["sets"] == 0:
@@ -218,7 +270,7 @@ def judge(cmax, r1, r2, ob, opts=()):
         if ob["cver"] != want:
             v.append(("negotiated-version-not-min", "client settled on version %d; min(client max, reader max) is %d (%s)" % (ob["cver"], want, d["why"])))
         want = ob["cver"]      # a wrong choice is reported above; "sticks to it" is about the choice made
-        req = [f for f in after if f[1] not in (46, 47, 72)]
+        req = [f for f in allf if f[1] not in (46, 47, 72)]
         ack = [f for f in after if f[1] == 72]
         if [f for f in req if f[0] != want]:
             v.append(("request-frames-not-negotiated-version",
@@ -227,16 +279,17 @@ def judge(cmax, r1, r2, ob, opts=()):
             v.append(("ack-frames-not-negotiated-version",
                       "after settling on version %d the keep-alive ack carries version bits %s" % (want, [f[0] for f in ack])))
         nack = 2 if "LA" in opts else 1
-        if len(req) != 2 or len(ack) != nack:
-            v.append(("later-traffic-missing", "expected two requests and %d ack(s) after negotiation, saw %s" % (nack, after)))
+        nreq = 3 if early_of(opts) else 2
+        if len([f for f in allf if f[1] not in (46, 47, 72)]) != nreq or len(ack) != nack:
+            v.append(("later-traffic-missing", "expected %d application frames and %d ack(s) after negotiation, saw %s" % (nreq, nack, after)))
     return v
 
 
 def project_go(line, r1):
     f = line.split()
-    if len(f) < 8:
+    if len(f) < 9:
         return None
-    ob = dict(sid=f[0], outcome=f[1], cver=int(f[2]), before=frames(f[3]), after=frames(f[4]), aux=f[5:8], raw=line)
+    ob = dict(sid=f[0], outcome=f[1], cver=int(f[2]), before=frames(f[3]), after=frames(f[4]), aux=f[5:9], raw=line)
     return ob
 
 
@@ -359,7 +412,8 @@ def run(tier, seed, replay=None):
         replay_d = dict(kind="session", correspondence="C06/negotiate-vs-Connect", cases=[line], observed=g,
                         model_today=mt, model_conforming=mc, demanded=demanded(cmax, r1, r2),
                         how="request line of harness/llrp/c06_test.go: <sid> <client max> <reaction to GET_SUPPORTED_VERSION> <reaction to SET_PROTOCOL_VERSION> "
-                            "[T<ms> client timeout] [K1|K2: KEEPALIVE while the query|switch is unanswered] [LA: after negotiation ack first]; "
+                            "[T<ms> client timeout] [K1|K2: KEEPALIVE while the query|switch is unanswered] [LA: after negotiation ack first] "
+                            "[V<g><n><l>: header versions the reader uses for greeting / during / after negotiation] [EN|ES 0|1|2: early SendNoWait|SendMessage before Connect | during query | during switch]; "
                             "observed: <outcome> <Client.version> <frames before outcome> <frames after> (version:type:payload)")
         if ob is None or mo_t is None or mo_c is None:
             res.violation("harness-answer", "unreadable answer for %s: go=%r model=%r" % (line, g, mt), replay_d, False)
@@ -390,7 +444,10 @@ def run(tier, seed, replay=None):
                 ("wrong-type", plain and cmax == 2 and kind(r1) == "W"),
                 ("limited-to-1.0.1", cmax == 1 and kind(r1) == "R"),
                 ("keepalives-at-both-points", shape == ["K1", "K2"] and len(ob["before"]) == 4),
-                ("reader-goes-down-ack-first", cmax == 2 and r1 == "R:64:32:0" and r2 == "R:0:0:0" and shape == ["LA"])]
+                ("reader-goes-down-ack-first", cmax == 2 and r1 == "R:64:32:0" and r2 == "R:0:0:0" and shape == ["LA"]),
+                ("greeting-at-1.1", f[0] == "greeting-1.1"),
+                ("early-sendnowait-during-query", f[0] == "early-nowait"),
+                ("early-sendmessage-before-connect", cmax == 2 and r1 == "R:32:64:0" and r2 == "R:0:0:0" and shape == ["ES0"])]
         for name, cond in want:
             if cond and name not in sampled:
                 sampled.add(name)
@@ -412,14 +469,18 @@ def run(tier, seed, replay=None):
     res.notes.append("types never delivered as replies by this tree (probed): %s" % sorted(NEVER_REPLY))
     res.coverage.update(
         evaluations=n, distinct_nontrivial=len(nontriv),
-        rule="the union of four completely enumerated grids. (1) reactions: client max {1.0.1, 1.1} x reaction to GET_SUPPORTED_VERSION "
+        rule="the union of six completely enumerated grids. (1) reactions: client max {1.0.1, 1.1} x reaction to GET_SUPPORTED_VERSION "
              "(response with current,max in 0..7 and status in {0,110,100}; ERROR_MESSAGE with those statuses; wrong types; oversize; three undecodable "
              "payloads; silence) x reaction to SET_PROTOCOL_VERSION (same kinds). (2) status codes (%s), one session each in the four places a status "
              "can stand: ERROR_MESSAGE to the query, status of the query's response, status of the switch's response, ERROR_MESSAGE to the switch. "
              "(3) interleavings, client max 1.1: {64 successful responses, E:110, E:0, E:100, wrong type, undecodable} x {switch accepted, "
              "refused, E:110, wrong type} + silence at the query / at the switch for two readers (thorough: all reactions of grid 1) x KEEPALIVE while the query is unanswered {no,yes} x KEEPALIVE "
              "while the switch is unanswered {no,yes} x order after negotiation {request-ack-request, ack-request-ack-request}. (4) version bytes with "
-             "non-zero low bits (thorough: all 65472). Each session = Connect on net.Pipe, then two SendMessage requests and one or two KEEPALIVEs "
+             "non-zero low bits (thorough: all 65472). (5) header version bits of what the reader sends — greeting, during negotiation, afterwards, "
+             "each 0..7 (quick: each axis alone + equal triples; thorough: all 512) x six readers x client max. (6) an early caller — SendNoWait or "
+             "SendMessage issued before Connect / while the query is unanswered / while the switch is unanswered — x {64 successful responses, E:110, "
+             "E:100, wrong type} x {switch accepted, refused} (thorough: all reactions), + combinations with keep-alives, order and header versions. "
+             "'Before the end of negotiation' = read by the reader before it sent its last negotiation answer. Each session = Connect on net.Pipe, then two SendMessage requests and one or two KEEPALIVEs "
              "in the stated order, every frame's version bits recorded; non-trivial iff client max is 1.1 (negotiation takes place); distinct by "
              "(client max, reaction 1, reaction 2, keep-alive points, order)" % sweep_desc,
         samples=samples, input_distribution=dist, traces_validated_against_impl=n, exhaustive=not replay,
